@@ -44,19 +44,39 @@ pub fn user_item(big: bool) -> BoxedStrategy<UserItem> {
     .boxed()
 }
 
+/// a UID-shaped text; with `big`, in ~3% of the cases one of 65 530-66 100 characters (around what a 16-bit item length can express)
+fn uid_maybe_huge(big: bool) -> BoxedStrategy<String> {
+    if big {
+        prop_oneof![
+            32 => uid_s(),
+            1 => (uid_s(), 65_530usize..66_100).prop_map(|(u, n)| {
+                let mut s = u;
+                while s.len() < n {
+                    s.push_str(".1");
+                }
+                s.truncate(n);
+                s
+            }),
+        ]
+        .boxed()
+    } else {
+        uid_s()
+    }
+}
+
 /// well-formed PDU values; `big` allows sub-items of 40-70 KiB (which a 16-bit length cannot express)
 pub fn pdu(big: bool) -> BoxedStrategy<PduIr> {
     let pcs_rq = vec(
-        (any::<u8>(), uid_s(), vec(uid_s(), 0..6)).prop_map(|(id, abstract_syntax, transfer_syntaxes)| PcProposed { id, abstract_syntax, transfer_syntaxes }),
+        (any::<u8>(), uid_maybe_huge(big), vec(uid_maybe_huge(big), 0..6)).prop_map(|(id, abstract_syntax, transfer_syntaxes)| PcProposed { id, abstract_syntax, transfer_syntaxes }),
         0..9,
     );
-    let pcs_ac = vec((any::<u8>(), 0u8..5, uid_s()).prop_map(|(id, reason, transfer_syntax)| PcResult { id, reason, transfer_syntax }), 0..9);
+    let pcs_ac = vec((any::<u8>(), 0u8..5, uid_maybe_huge(big)).prop_map(|(id, reason, transfer_syntax)| PcResult { id, reason, transfer_syntax }), 0..9);
     let pdv = (any::<u8>(), any::<bool>(), any::<bool>(), prop_oneof![6 => vec(any::<u8>(), 0..64), 2 => vec(any::<u8>(), 0..3000), 1 => (60_000usize..70_000).prop_flat_map(|n| vec(any::<u8>(), n))])
         .prop_map(|(pc_id, command, last, data)| Pdv { pc_id, command, last, data });
     prop_oneof![
-        3 => (any::<u16>(), ae_title(), ae_title(), uid_s(), pcs_rq, vec(user_item(big), 0..6))
+        3 => (any::<u16>(), ae_title(), ae_title(), uid_maybe_huge(big), pcs_rq, vec(user_item(big), 0..6))
             .prop_map(|(protocol_version, called, calling, app_ctx, pcs, user)| PduIr::AssocRq { protocol_version, called, calling, app_ctx, pcs, user }),
-        3 => (any::<u16>(), ae_title(), ae_title(), uid_s(), pcs_ac, vec(user_item(big), 0..6))
+        3 => (any::<u16>(), ae_title(), ae_title(), uid_maybe_huge(big), pcs_ac, vec(user_item(big), 0..6))
             .prop_map(|(protocol_version, called, calling, app_ctx, pcs, user)| PduIr::AssocAc { protocol_version, called, calling, app_ctx, pcs, user }),
         1 => (1u8..=2, prop_oneof![
                 (Just(1u8), prop_oneof![Just(1u8), Just(2), Just(3), Just(7), 4u8..=6, 8u8..=10]),
